@@ -29,14 +29,20 @@ type runCase struct {
 	latch  byte // CPU.Interrupt on entry (1 = interruptNone, 2 = NMI, 3 = IRQ, 0 = fresh CPU)
 	lkind  int  // which kind of Logger (see loggerKinds); the model only knows whether there is one
 	long   bool // a loop that runs for hundreds of iterations
+	hiTarget bool // the target has bits above bit 23 set
+	resumed  bool // a second RunUntil on the same System, started where the previous one stopped, after the code there was rewritten
 }
 
 // input: the replayable case line plus the kind of Logger object used on the Go side
 func (c runCase) input(variant string) string {
-	if !c.logger {
-		return c.line(variant)
+	l := c.line(variant)
+	if c.resumed {
+		l += " resumed: second RunUntil on the same System / CPU object, which stopped here in a traced run before the bytes at this address were replaced"
 	}
-	return c.line(variant) + " logger=" + loggerKinds[c.lkind]
+	if !c.logger {
+		return l
+	}
+	return l + " logger=" + loggerKinds[c.lkind]
 }
 
 func (c runCase) line(variant string) string {
@@ -140,6 +146,7 @@ type runObs struct {
 	onpc    []uint32
 	wdm     []byte
 	maxA    uint32
+	ovl     map[uint32]byte // memory overlay after the run (preset bytes and everything written)
 }
 
 func (o runObs) String(cycles uint64) string {
@@ -164,10 +171,25 @@ func (o runObs) String(cycles uint64) string {
 var sharedSys *emulator.System
 var sysDelegate = &sysMem{}
 
-type sysMem struct{ cur *cpuh.Mem }
+// sysMem routes the System's bus to the case's memory. It also bounds a run: a RunUntil that is still accessing memory after
+// runawayAccesses accesses (the longest legitimate run of the generator needs well under a million; budgets of 2^31.. cycles are only given
+// to programs known to reach their target) is stopped by a panic, which runSystem reports as the outcome of the run.
+type sysMem struct {
+	cur  *cpuh.Mem
+	left int64
+}
 
-func (d *sysMem) Read(a uint32) byte     { return d.cur.Read(a) }
-func (d *sysMem) Write(a uint32, v byte) { d.cur.Write(a, v) }
+const runawayAccesses = 8 << 20
+
+func (d *sysMem) tick() {
+	d.left--
+	if d.left < 0 {
+		panic(fmt.Sprintf("runaway: RunUntil still running after %d memory accesses", runawayAccesses))
+	}
+}
+
+func (d *sysMem) Read(a uint32) byte     { d.tick(); return d.cur.Read(a) }
+func (d *sysMem) Write(a uint32, v byte) { d.tick(); d.cur.Write(a, v) }
 func (d *sysMem) Shutdown()              {}
 func (d *sysMem) Size() uint32           { return 1 << 24 }
 func (d *sysMem) Clear()                 {}
@@ -186,7 +208,7 @@ func runSystem(c runCase) (o runObs) {
 			panic(err)
 		}
 	}
-	sysDelegate.cur = mem
+	sysDelegate.cur, sysDelegate.left = mem, runawayAccesses
 	s := sharedSys
 	p := &cpuh.Primary{CPU: &s.CPU, Mem: mem}
 	p.Set(c.regs)
@@ -213,6 +235,10 @@ func runSystem(c runCase) (o runObs) {
 	o.regs = p.Get()
 	o.writes = mem.WritesCanon()
 	o.maxA = mem.MaxA
+	o.ovl = make(map[uint32]byte, len(mem.Ovl))
+	for a, v := range mem.Ovl {
+		o.ovl[a] = v
+	}
 	if w != nil {
 		o.logs = w.writes
 		o.lines = w.lines
@@ -458,6 +484,21 @@ func genRunCase(r *prng.R) runCase {
 			c.regs.I = 0
 		}
 	}
+	if r.Chance(12) {
+		// integer extremes of the target argument: bits above the 24-bit address space are set, so K:PC can never equal it
+		// (the low 24 bits are usually an address the program does reach)
+		switch r.N(5) {
+		case 0:
+			c.target = 0xFFFFFFFF
+		case 1:
+			c.target |= 0x1000000
+		case 2:
+			c.target |= 0x80000000
+		default:
+			c.target |= uint32(1+r.N(255)) << 24
+		}
+		c.hiTarget = true
+	}
 	if hugeOK && r.Chance(30) {
 		// a budget beyond any machine word arithmetic on it, only when the target is known to be reached
 		pre := c
@@ -469,6 +510,41 @@ func genRunCase(r *prng.R) runCase {
 		}
 	}
 	return c
+}
+
+// resumedCase: start state = the end state of the run `o` of case c (registers, memory), with the bytes at the address the run
+// stopped at replaced by another instruction; traced; a small budget and a target nearby, the old target, or none
+func resumedCase(c runCase, o runObs, r *prng.R) runCase {
+	n := c
+	n.cpuCase = cpuCase{regs: o.regs, seed: c.seed, ovl: map[uint32]byte{}, tag: c.tag}
+	for a, v := range o.ovl {
+		n.ovl[a] = v
+	}
+	at := func(i int) uint32 { return uint32(o.regs.RK)<<16 | uint32(o.regs.PC+uint16(i)) }
+	old := n.byteAt(at(0))
+	nb := r.U8()
+	if nb == old {
+		nb = old + 1 + byte(r.N(255))
+	}
+	n.ovl[at(0)] = nb
+	for i := 1; i < 4; i++ {
+		if r.Chance(70) {
+			n.ovl[at(i)] = r.U8()
+		}
+	}
+	switch r.N(5) {
+	case 0:
+		n.target = c.target & 0xFFFFFF
+	case 1:
+		n.target = r.U32() & 0xFFFFFF
+	default:
+		n.target = at(1 + r.N(4))
+	}
+	n.max = []uint64{1, 2, 5, 12, 40}[r.N(5)]
+	n.logger, n.lkind = true, r.N(len(loggerKinds))
+	n.cbs, n.latch, n.long, n.hiTarget, n.resumed = nil, 1, false, false, true
+	n.tag2 = "resumed"
+	return n
 }
 
 func eqU32(a, b []uint32) bool {
@@ -530,12 +606,13 @@ func runRunUntil() {
 	}
 	distinct := map[string]bool{}
 	var evals int64
-	for i, c := range cases {
+	process := func(i int, c runCase, modelP, modelA string) (po runObs) {
 		for vi, variant := range []string{"p", "a"} {
 			cc := c
 			var o runObs
 			if variant == "p" {
 				o = runSystem(cc)
+				po = o
 			} else {
 				cc.logger = false
 				o = runAltLoop(cc)
@@ -549,6 +626,10 @@ func runRunUntil() {
 			}
 			if o.panic != "" || rp.panic != "" {
 				viol("RunUntil / Step failed: "+o.panic+rp.panic, "", "")
+				if cc.logger && variant == "p" && rp.panic == "" && strings.HasPrefix(o.panic, "runaway") {
+					rep.Add(report.Finding{Property: "C14", Kind: "violation", Clause: "running with a Logger changed the run: the Logger-free replay ends after " + fmt.Sprint(rp.cycles) + " cycles, the traced RunUntil does not end",
+						Input: in, Expected: rp.final.Canon() + "|" + rp.writes, Actual: o.panic})
+				}
 				continue
 			}
 			finalPC := uint32(o.regs.RK)<<16 | uint32(o.regs.PC)
@@ -629,14 +710,20 @@ func runRunUntil() {
 				viol("Logger.Write count is not one per loop iteration", fmt.Sprint(rp.iters), fmt.Sprint(o.logs))
 			}
 			// model correspondence
-			reps := repP
+			mrep := modelP
 			if variant == "a" {
-				reps = repA
+				mrep = modelA
 			}
-			if reps != nil && i < len(reps) && reps[i] != "" {
+			if mrep != "" {
 				got := o.String(rp.cycles)
-				if reps[i] != got {
-					rep.Add(report.Finding{Property: "C12", Kind: "disagreement", Clause: "Lean Sys.runUntil vs " + vname, Input: in, Expected: reps[i] + " (model)", Actual: got + " (go)"})
+				if mrep != got {
+					rep.Add(report.Finding{Property: "C12", Kind: "disagreement", Clause: "Lean Sys.runUntil vs " + vname, Input: in, Expected: mrep + " (model)", Actual: got + " (go)"})
+				}
+			}
+			if c.hiTarget {
+				rep.Count("target with bits above bit 23 set")
+				if cc.logger {
+					rep.Count("target with bits above bit 23 set, traced")
 				}
 			}
 			cls := fmt.Sprintf("%s reached=%v steps=%s cbs=%d log=%v", c.tag2, o.reached, bucket(len(rp.pcs)), len(o.onpc), cc.logger)
@@ -653,12 +740,28 @@ func runRunUntil() {
 				rep.Sample(map[string]string{"case": in, "go": o.String(rp.cycles)})
 			}
 		}
+		return
+	}
+	for i, c := range cases {
+		mp, ma := "", ""
+		if repP != nil {
+			mp, ma = repP[i], repA[i]
+		}
+		po := process(i, c, mp, ma)
+		// resumed run: the same System (same CPU object, which has just traced the line of the address it stopped at) continues from
+		// there after the harness rewrote the code at that address; everything is judged by the same clauses (replay on fresh objects)
+		if c.logger && po.panic == "" && po.ovl != nil && (po.reached || i%3 == 0) {
+			cont := resumedCase(c, po, prng.New(seed^0x2e5+uint64(i)*0x9E3779B9))
+			rep.Count("resumed run on the same System after the code at the stop address was rewritten")
+			process(-1, cont, "", "")
+		}
 	}
 	rep.Evaluations = evals
 	rep.Distinct = int64(len(distinct))
 	rep.CountN("cases", int64(2*len(cases)))
 	rep.Rule = "structured programs (SEP; LDX #n; loop: WDM #k; [NOP] [PHA PLA] DEX; BNE loop; STP) and random programs over a seeded 16 MiB image; targets: loop head, exit, start (already there), " +
 		"one past the end, addresses taken from the real trace, random; budgets 0..3000 cycles, a quarter of the loops run 20..255 times with budgets 255..70000 and (target known to be reached) 2^31..2^64-1; 0..3 OnPC callbacks on trace addresses; OnWDM always set; " +
+		"an eighth of the targets have bits above bit 23 set ($FFFFFFFF, $1000000 / $80000000 / a random high byte over a target of the usual kinds: never equal to K:PC); after traced runs the same System runs again from where it stopped with the code at that address rewritten (resumed runs); " +
 		"Logger on 40%: a plain io.Writer or one implementing the optional interfaces RunUntil looks for (Reserver, Committer, both, plus the standard writers' optional interfaces); every traced run is also compared with the same RunUntil call without a Logger; " +
 		"the real emulator.System.RunUntil (primary CPU) and the same loop around cpualt.Step are compared with the compiled Lean Sys.runUntil and with an independent single-step replay. " +
 		"evaluations = instructions executed inside RunUntil"
